@@ -111,6 +111,58 @@ template<class T> static std::string gemmO(std::string const& o, std::size_t M, 
 	if(o == "ccr") return gemmOp<T,c,c,r>(M,N,K,alpha,seed,orc); if(o == "ccc") return gemmOp<T,c,c,c>(M,N,K,alpha,seed,orc);
 	return "bad-op";
 }
+
+// ---- expressions mixing value types (float / double / int): remora computes in std::common_type of the operand
+// value types and converts to the target's value type on assignment; on data where every intermediate is exactly
+// representable in every participating type the result is the same rational element-wise definition
+template<class V> static void fillv(V& v, std::size_t seed){ for(std::size_t i = 0; i != v.size(); ++i) v(i) = (typename V::value_type)val(seed, i); }
+template<class M> static void fillm(M& m, std::size_t seed){ for(std::size_t i = 0; i != m.size1(); ++i) for(std::size_t j = 0; j != m.size2(); ++j) m(i,j) = (typename M::value_type)val(seed, i*m.size2()+j); }
+template<class V> static std::vector<double> tov(V const& v){ std::vector<double> r(v.size()); for(std::size_t i = 0; i != r.size(); ++i) r[i] = (double)v(i); return r; }
+template<class M> static std::vector<double> tom(M const& m){ std::vector<double> r; for(std::size_t i = 0; i != m.size1(); ++i) for(std::size_t j = 0; j != m.size2(); ++j) r.push_back((double)m(i,j)); return r; }
+static std::string mixedOp(std::string const& what, std::size_t m, std::size_t n, std::size_t k, std::size_t seed, std::string& orc){
+	std::vector<double> got, want;
+	if(what == "add_df"){            // vector<double> = vector<double> + vector<float>
+		vector<double> x(n), r(n); vector<float> y(n); fillv(x, seed); fillv(y, seed+1);
+		r = x + y; got = tov(r); for(std::size_t i = 0; i != n; ++i) want.push_back(val(seed,i) + val(seed+1,i));
+		return (want != got ? (orc += " !oracle wrong-mixed", 0) : 0), showList(got);
+	}
+	if(what == "mul_fi_to_d"){       // vector<double> = vector<float> * vector<int> (element-wise)
+		vector<float> x(n); vector<int> y(n); vector<double> r(n); fillv(x, seed); fillv(y, seed+1);
+		r = x * y; got = tov(r); for(std::size_t i = 0; i != n; ++i) want.push_back(val(seed,i) * val(seed+1,i));
+		return (want != got ? (orc += " !oracle wrong-mixed", 0) : 0), showList(got);
+	}
+	if(what == "plus_i_d"){          // vector<int> += vector<double> (integer-valued): converted on assignment
+		vector<int> t(n); vector<double> y(n); fillv(t, seed); fillv(y, seed+1);
+		t += y; got = tov(t); for(std::size_t i = 0; i != n; ++i) want.push_back(val(seed,i) + val(seed+1,i));
+		return (want != got ? (orc += " !oracle wrong-mixed", 0) : 0), showList(got);
+	}
+	if(what == "gemv_fi_to_d"){      // vector<double> = prod(matrix<float>, vector<int>)
+		matrix<float> A(m, n); vector<int> x(n); vector<double> r(m); fillm(A, seed); fillv(x, seed+1);
+		r = prod(A, x); got = tov(r);
+		for(std::size_t i = 0; i != m; ++i){ double s = 0; for(std::size_t j = 0; j != n; ++j) s += val(seed, i*n+j) * val(seed+1, j); want.push_back(s); }
+		return (want != got ? (orc += " !oracle wrong-mixed", 0) : 0), showList(got);
+	}
+	if(what == "gemm_fd_plus_d"){    // matrix<double> += prod(matrix<float>, matrix<double, column_major>)
+		matrix<float> A(m, k); matrix<double, column_major> B(k, n); matrix<double> C(m, n); fillm(A, seed); fillm(B, seed+1); fillm(C, seed+2);
+		noalias(C) += prod(A, B); got = tom(C);
+		for(std::size_t i = 0; i != m; ++i) for(std::size_t j = 0; j != n; ++j){ double s = 0; for(std::size_t l = 0; l != k; ++l) s += val(seed, i*k+l) * val(seed+1, l*n+j); want.push_back(val(seed+2, i*n+j) + s); }
+		return (want != got ? (orc += " !oracle wrong-mixed", 0) : 0), showMat(m, n, got);
+	}
+	if(what == "outer_fi_minus_d"){  // matrix<double> -= outer_prod(vector<float>, vector<int>)
+		vector<float> u(m); vector<int> v(n); matrix<double> C(m, n); fillv(u, seed); fillv(v, seed+1); fillm(C, seed+2);
+		C -= outer_prod(u, v); got = tom(C);
+		for(std::size_t i = 0; i != m; ++i) for(std::size_t j = 0; j != n; ++j) want.push_back(val(seed+2, i*n+j) - val(seed,i) * val(seed+1,j));
+		return (want != got ? (orc += " !oracle wrong-mixed", 0) : 0), showMat(m, n, got);
+	}
+	if(what == "sum_f" || what == "sum_i" || what == "inner_fd"){   // reductions in the operand's value type
+		vector<float> x(n); vector<int> y(n); vector<double> z(n); fillv(x, seed); fillv(y, seed); fillv(z, seed+1);
+		double g = what == "sum_f" ? (double)sum(x) : what == "sum_i" ? (double)sum(y) : (double)inner_prod(x, z), w = 0;
+		for(std::size_t i = 0; i != n; ++i) w += what == "inner_fd" ? val(seed,i) * val(seed+1,i) : val(seed,i);
+		if(g != w) orc += " !oracle wrong-mixed";
+		return "R=" + showNum(g);
+	}
+	return "bad-op";
+}
 struct MaxF{ double operator()(double x, double y) const{ return x < y ? y : x; } };
 struct MinF{ double operator()(double x, double y) const{ return y < x ? y : x; } };
 struct AddF{ double operator()(double x, double y) const{ return x + y; } };
@@ -164,6 +216,7 @@ int main(){
 				out = showMat(n1, n2, got);
 			}
 		}
+		else if(t[0] == "kmixed" && t.size() == 6) out = mixedOp(t[1], U(2), U(3), U(4), U(5), orc);
 		else if(t[0] == "kfoldrows" && t.size() == 5){
 			std::size_t n1 = U(2), n2 = U(3), seed = U(4);
 			matrix<double, column_major> A(n1, n2); vector<double> v(n1);
